@@ -691,30 +691,37 @@ func (c *Ctx) FanOut(rule string, scopePkgs ...string) []report.Obligation {
 			if sp.Closure == nil {
 				continue
 			}
-			for _, b := range sp.Closure.Blocks {
-				for _, in := range b.Instrs {
-					snd, oks := in.(*ssa.Send)
-					if !oks {
-						continue
-					}
-					key := fmt.Sprintf("%s :: send in %s", id, c.P.FuncID(sp.Closure))
-					mk := c.chanOrigin(snd.Chan, 8)
-					switch {
-					case prog.Info(sp.Closure).InLoop(b):
-						out = append(out, bad(rule+"-R5", key, c.P.InstrPos(in), "send inside a loop: more than one send per spawned closure, the buffer bound does not apply"))
-					case mk == nil:
-						out = append(out, bad(rule+"-R5", key, c.P.InstrPos(in), "one send per closure execution; the channel's creation is not visible from here (undecided capacity)"))
-					default:
-						if n, isConst := constInt(mk.Size); isConst {
-							if n == 0 {
-								out = append(out, bad(rule+"-R5", key, c.P.InstrPos(mk), "unbuffered channel: a spawned closure blocks in its send once the receiver has stopped (error / cancellation), and Wait() never returns"))
+			// the spawned closure, or the one function it hands over to
+			bodies := []*ssa.Function{sp.Closure}
+			if d := c.thinDelegate(sp.Closure); d != nil {
+				bodies = append(bodies, d)
+			}
+			for _, body := range bodies {
+				for _, b := range body.Blocks {
+					for _, in := range b.Instrs {
+						snd, oks := in.(*ssa.Send)
+						if !oks {
+							continue
+						}
+						key := fmt.Sprintf("%s :: send in %s", id, c.P.FuncID(sp.Closure))
+						mk := c.chanOrigin(snd.Chan, 8)
+						switch {
+						case prog.Info(body).InLoop(b):
+							out = append(out, bad(rule+"-R5", key, c.P.InstrPos(in), "send inside a loop: more than one send per spawned closure, the buffer bound does not apply"))
+						case mk == nil:
+							out = append(out, bad(rule+"-R5", key, c.P.InstrPos(in), "one send per closure execution; the channel's creation is not visible from here (undecided capacity)"))
+						default:
+							if n, isConst := constInt(mk.Size); isConst {
+								if n == 0 {
+									out = append(out, bad(rule+"-R5", key, c.P.InstrPos(mk), "unbuffered channel: a spawned closure blocks in its send once the receiver has stopped (error / cancellation), and Wait() never returns"))
+								} else {
+									out = append(out, bad(rule+"-R5", key, c.P.InstrPos(mk), "constant channel capacity: not related to the number of senders"))
+								}
+							} else if derivedFromLen(mk.Size, 4) {
+								out = append(out, ok(rule+"-R5", key, c.P.InstrPos(mk), "one send per closure execution; capacity is len(...) of the collection the closures are spawned for, so no send can block"))
 							} else {
-								out = append(out, bad(rule+"-R5", key, c.P.InstrPos(mk), "constant channel capacity: not related to the number of senders"))
+								out = append(out, bad(rule+"-R5", key, c.P.InstrPos(mk), "channel capacity is not derived from len(...)"))
 							}
-						} else if derivedFromLen(mk.Size, 4) {
-							out = append(out, ok(rule+"-R5", key, c.P.InstrPos(mk), "one send per closure execution; capacity is len(...) of the collection the closures are spawned for, so no send can block"))
-						} else {
-							out = append(out, bad(rule+"-R5", key, c.P.InstrPos(mk), "channel capacity is not derived from len(...)"))
 						}
 					}
 				}
@@ -752,6 +759,8 @@ func (c *Ctx) chanOrigin(v ssa.Value, depth int) *ssa.MakeChan {
 		return c.chanOrigin(c.cellValue(x.X), depth-1)
 	case *ssa.FreeVar:
 		return c.chanOrigin(c.bindingOf(x), depth-1)
+	case *ssa.ChangeType:
+		return c.chanOrigin(x.X, depth) // chan T handed on as chan<- T / <-chan T
 	case *ssa.Parameter:
 		fn := x.Parent()
 		idx := -1
@@ -1305,4 +1314,25 @@ func sameCell(a, b ssa.Value) bool {
 		}
 	}
 	return false
+}
+
+// thinDelegate: the closure only hands over to one module function (a single call in a single block).
+func (c *Ctx) thinDelegate(cl *ssa.Function) *ssa.Function {
+	if cl == nil || len(cl.Blocks) != 1 {
+		return nil
+	}
+	var only *ssa.Function
+	n := 0
+	for _, in := range cl.Blocks[0].Instrs {
+		if call, ok := in.(*ssa.Call); ok {
+			n++
+			if cal := call.Call.StaticCallee(); cal != nil && c.P.InModule(cal) && cal.Blocks != nil {
+				only = cal
+			}
+		}
+	}
+	if n == 1 {
+		return only
+	}
+	return nil
 }
